@@ -65,6 +65,13 @@ DataCases == {
   Case("repeat", <<>>, RepE(T(1, 5), T(2, 2)), WArr(WInt), <<1, 2>>),
   Case("index", <<>>, At(Tick(1, WArr(WInt), Arr123), T(2, 1)), WInt, <<1, 2>>),
   Case("index-lit", <<>>, At(Arr123, T(1, 1)), WInt, <<1>>),
+  \* a constant index into an array LITERAL: every element is still evaluated, once, in order
+  Case("index-const-into-effectful-literal-0", <<>>, At(ArrE(<<T(1, 5), T(2, 6), T(3, 7)>>), I(0)), WInt, <<1, 2, 3>>),
+  Case("index-const-into-effectful-literal-1", <<>>, At(ArrE(<<T(1, 5), T(2, 6), T(3, 7)>>), I(1)), WInt, <<1, 2, 3>>),
+  Case("index-const-into-effectful-literal-neg", <<>>, At(ArrE(<<T(1, 5), T(2, 6), T(3, 7)>>), I(-1)), WInt, <<1, 2, 3>>),
+  Case("tuple-access-effectful-literal", <<>>, TupAt(TupE(<<T(1, 5), T(2, 6), T(3, 7)>>), 1), WInt, <<1, 2, 3>>),
+  Case("field-of-effectful-struct-literal", <<>>, Field(StructE(<< <<"a", T(1, 5)>>, <<"b", T(2, 6)>> >>), "a"), WInt, <<1, 2>>),
+  Case("repeat-value-then-length", <<>>, At(RepE(T(1, 5), T(2, 2)), I(0)), WInt, <<1, 2>>),
   Case("slice4", <<>>, Slice(Tick(1, WArr(WInt), Arr123), T(2, 0), T(3, 3), T(4, 2)), WArr(WInt), <<1, 2, 3, 4>>),
   Case("slice-ab", <<>>, Slice(Tick(1, WArr(WInt), Arr123), T(2, 0), T(3, 2), NoneV), WArr(WInt), <<1, 2, 3>>),
   Case("slice-ac", <<>>, Slice(Tick(1, WArr(WInt), Arr123), T(2, 0), NoneV, T(3, 2)), WArr(WInt), <<1, 2, 3>>),
